@@ -1,5 +1,139 @@
 (* C02 — parsed components are the exact RFC 3986 sub-ranges of the input.
-   Statements only.  (Work in progress: see Proofs/ParseData.v.) *)
-From Coq Require Import List NArith.
-From UP Require Import Base.Chars Base.Regex Model.Uri Model.Ip4 Model.Parse Spec.Rfc3986 Spec.Split.
+   Statements only; proofs in Proofs/ParseData.v (concatenation), Proofs/ParseWfStep.v and
+   Proofs/ParseWf.v (well-formedness).  The statements are about the model parser
+   (Model/Parse.v); its correspondence with src/UriParse.c is checked by gen/c02.py.
+
+   "The path list is well formed with its tail being the last node" holds by construction in
+   the model and is therefore NOT a theorem here: the model's path is a Coq list (pathSegs),
+   which has no separate tail pointer.  That pathTail of the C object is the last node of the
+   chain from pathHead is checked on the implementation's own objects by the harness
+   (harness/drv.c prints "bad" otherwise, gen/c02.py reports it). *)
+From Coq Require Import List NArith Bool String.
+From UP Require Import Base.Chars Model.Uri Model.Ip4 Model.Parse Spec.NormalWf Spec.Unparse Spec.Identity
+  Spec.Split Proofs.ParseData Proofs.ParseWfStep Proofs.ParseWf Proofs.ParseSplit.
+From UP Require Proofs.ResolveProofs Spec.Rfc3986.
 Import ListNotations.
+Local Open Scope N_scope.
+
+(* The components reported, written one after the other with nothing but their delimiters in
+   between (scheme ":", "//" userinfo "@" host ":" port, "/"-separated segments, "?" query,
+   "#" fragment; IP literals between brackets), are the input: each component is a sub-range of
+   the input, the sub-ranges are in order and they leave out the delimiters only.  A leading "/"
+   is written for a host-less path exactly when the absolute-path flag is set. *)
+Theorem C02_unparse : forall s u, parse s = POk u -> unparse u = s.
+Proof. exact parse_unparse. Qed.
+Print Assumptions C02_unparse.
+
+(* Every parsed object is well formed (Spec/Unparse.v): each component consists of the characters
+   of its grammar rule with well-formed percent-encodings; the host is classified as IPv6 literal /
+   IPvFuture literal / IPv4 address / registered name by its text, with the address data computed
+   from that text; the absolute-path flag is off when there is a host; a host-less path does not
+   begin with an empty segment; user info and port only occur with a host. *)
+Theorem C02_wf : forall s u, parse s = POk u -> parsed_wf parse_ip4 ip6_bytes u.
+Proof. exact parse_wf. Qed.
+Print Assumptions C02_wf.
+
+(* Consequently no component contains a delimiter that would end it, nor a NUL. *)
+Theorem C02_delimiters : forall s u, parse s = POk u ->
+  opt_ok (fun s => s <> [] /\ none_of [58; 47; 63; 35; 64; 91; 93; 37; 0] s) (scheme u)
+  /\ opt_ok (none_of [64; 47; 63; 35; 91; 93; 0]) (userInfo u)
+  /\ opt_ok (fun h => if is_lit u then none_of [91; 93; 47; 63; 35; 64; 37; 0] h
+                      else none_of [58; 47; 63; 35; 64; 91; 93; 0] h) (hostText u)
+  /\ opt_ok (none_of [58; 47; 63; 35; 64; 91; 93; 37; 0]) (portText u)
+  /\ Forall (none_of [47; 63; 35; 91; 93; 0]) (pathSegs u)
+  /\ opt_ok (none_of [35; 91; 93; 0]) (query u)
+  /\ opt_ok (none_of [35; 91; 93; 0]) (fragment u).
+Proof. exact parse_delims. Qed.
+Print Assumptions C02_delimiters.
+
+(* Parsed objects satisfy what the theorems about the other operations assume of their arguments *)
+Theorem C02_parsed_wf_for_resolution : forall s u, parse s = POk u ->
+  ResolveProofs.wf u = true /\ ResolveProofs.one_kind u = true.
+Proof. exact parse_wf_resolution. Qed.
+Print Assumptions C02_parsed_wf_for_resolution.
+
+Theorem C02_parsed_wf_for_normalization : forall s u, parse s = POk u -> uri_wf u.
+Proof. exact parse_wf_normalization. Qed.
+Print Assumptions C02_parsed_wf_for_normalization.
+
+Theorem C02_parsed_wf_for_equality : forall s u, parse s = POk u -> uri_nul_free u.
+Proof. exact parse_wf_equality. Qed.
+Print Assumptions C02_parsed_wf_for_equality.
+
+(* The object is the one the Appendix-B style splitter of Spec/Split.v (RFC 3986 appendix B plus
+   the authority and path structure of section 3) assigns to the text: [spec_addr u] is [u] with the
+   two address fields recomputed from the host text by the specification functions (ip4_value when
+   the text matches IPv4address, ip6_value).
+   PARTIAL: what is missing for [u = split_spec s] is exactly
+     parse_ip4 h = if matchb IPv4address h then Some (ip4_value h) else None      (Model/Ip4.v)
+     ip6_bytes h = ip6_value h   for the text h of an accepted IPv6 literal       (Model/Parse.v)
+   which are statements about the two address scanners alone; Proofs/ParseSplit.v
+   parse_split_given_addr / parse_is_split derive [u = split_spec s] from them. *)
+Theorem C02_split_partial : forall s u, parse s = POk u -> split_spec s = spec_addr u.
+Proof. exact parse_split. Qed.
+Print Assumptions C02_split_partial.
+
+(* Absent components are reported as absent (None) and present-but-empty ones as empty (Some []):
+   each optional component, as an [option text], is the splitter's.  The splitter reports a
+   component as present exactly when its delimiter is in the text (":" before any "/?#", "//",
+   "@" inside the authority, ":" after the host, "?", "#") and then gives the possibly empty text
+   it delimits.  Also: same segments, same absolute-path flag, same host kind. *)
+Theorem C02_absent_vs_empty : forall s u, parse s = POk u ->
+  scheme u = scheme (split_spec s) /\ userInfo u = userInfo (split_spec s)
+  /\ hostText u = hostText (split_spec s) /\ portText u = portText (split_spec s)
+  /\ pathSegs u = pathSegs (split_spec s) /\ absolutePath u = absolutePath (split_spec s)
+  /\ query u = query (split_spec s) /\ fragment u = fragment (split_spec s)
+  /\ ipFuture u = ipFuture (split_spec s)
+  /\ is_some (ip6 u) = is_some (ip6 (split_spec s))
+  /\ (is_lit u = true -> ip4 u = None /\ ip4 (split_spec s) = None).
+Proof. exact parse_split_components. Qed.
+Print Assumptions C02_absent_vs_empty.
+
+(* ---- non-vacuity: concrete inputs (the hypothesis [parse s = POk u] is satisfiable, and the
+   objects are what one expects) ------------------------------------------------------------- *)
+Local Open Scope string_scope.
+Notation txt := ResolveProofs.txt.
+
+Example C02_ex_all_components :
+  parse (txt "http://u:p@[::1]:80/a/b?q#f") =
+  POk (mkUri (Some (txt "http")) (Some (txt "u:p")) (Some (txt "::1")) None
+             (Some [0; 0; 0; 0; 0; 0; 0; 0; 0; 0; 0; 0; 0; 0; 0; 1]%N) None (Some (txt "80"))
+             [txt "a"; txt "b"] (Some (txt "q")) (Some (txt "f")) false false).
+Proof. vm_compute. reflexivity. Qed.
+
+(* present but empty: Some [] ... *)
+Example C02_ex_present_but_empty :
+  parse (txt "//@:?#") =
+  POk (mkUri None (Some []) (Some []) None None None (Some []) [] (Some []) (Some []) false false).
+Proof. vm_compute. reflexivity. Qed.
+(* ... absent: None *)
+Example C02_ex_absent :
+  parse (txt "x") = POk (mkUri None None None None None None None [txt "x"] None None false false).
+Proof. vm_compute. reflexivity. Qed.
+
+Example C02_ex_ip4 :
+  parse (txt "//1.2.3.4/") =
+  POk (mkUri None None (Some (txt "1.2.3.4")) (Some [1; 2; 3; 4]%N) None None None [[]] None None false false).
+Proof. vm_compute. reflexivity. Qed.
+
+Example C02_ex_ipfuture :
+  parse (txt "//[v1.x]") =
+  POk (mkUri None None (Some (txt "v1.x")) None None (Some (txt "v1.x")) None [] None None false false).
+Proof. vm_compute. reflexivity. Qed.
+
+(* the absolute-path flag: host-less paths beginning with "/" *)
+Example C02_ex_abs :
+  parse (txt "/") = POk (mkUri None None None None None None None [] None None true false)
+  /\ parse (txt "a:/b") = POk (mkUri (Some (txt "a")) None None None None None None [txt "b"] None None true false)
+  /\ parse (txt "//h/b") = POk (mkUri None None (Some (txt "h")) None None None None [txt "b"] None None false false).
+Proof. vm_compute. repeat split; reflexivity. Qed.
+
+(* the round trip on all of them *)
+Example C02_ex_unparse :
+  forallb (fun s => match parse (txt s) with
+                    | POk u => if list_eq_dec N.eq_dec (unparse u) (txt s) then true else false
+                    | PSyntax _ => false
+                    end)
+          ["http://u:p@[::1]:80/a/b?q#f"; "//@:?#"; "x"; "//1.2.3.4/"; "//[v1.x]"; "/"; "a:/b"; "//h/b"; "";
+           "a//b"; "//h//"; "?"; "#"; "./a:b"; "%41/%42"] = true.
+Proof. vm_compute. reflexivity. Qed.
